@@ -45,6 +45,8 @@ structure JSess where
   perms : Perms := { media := true, audio := true, video := true, screen := true }
   /-- step of the last permission change -/
   permsAt : Nat := 0
+  /-- client type, own in-call flags (internal clients), connection, waiting for expiry -/
+  info : Meta := {}
 
 structure JObj where
   id : Nat
@@ -73,6 +75,21 @@ def Judge.leaveRoom (j : Judge) (i : Nat) : Judge :=
   match s.room with
   | none => j
   | some _ => j.set i { s with room := none, inCall := false, epoch := s.epoch + 1 }
+
+/-- The session is closed (by whatever way): it has left its room and its call. -/
+def Judge.closeSess (j : Judge) (i : Nat) : Judge :=
+  let x := j.get i
+  j.set i { x with closed := true, room := none, inCall := false, epoch := x.epoch + 1,
+                   info := { x.info with connected := false, expiring := false } }
+
+/-- The session leaves the call of its room if it was in it. -/
+def Judge.leaveCall (j : Judge) (i : Nat) : Judge :=
+  let x := j.get i
+  if x.inCall then j.set i { x with inCall := false, epoch := x.epoch + 1 } else j
+
+def Judge.setInfos (j : Judge) : List Meta → Nat → Judge
+  | [], _ => j
+  | m :: ms, i => (j.set i { j.get i with info := m }).setInfos ms (i + 1)
 
 /-- An observed open object: `id/owner/p/<stream>/<media>/<T|U>` or `id/owner/s/<stream>/<publisher>/<T|U>`. -/
 structure Seen where
@@ -163,9 +180,43 @@ def Judge.observe (j : Judge) (op : Op) (label : Nat) (impl : List String) : Jud
       else if x.inCall then (j.set s { x with inCall := false, epoch := x.epoch + 1 }, "ok")
       else (j, "ok")
   | .perms s p => (j.set s { j.get s with perms := p, permsAt := j.now }, "ok")
-  | .close s =>
+  | .close s => (j.closeSess s, "ok")
+  | .world ms => (j.setInfos ms 0, "ok")
+  | .incallAll r true all =>
+    -- "everybody joins the call" is addressed to the user sessions of the room
+    (all.foldl (fun j s =>
+      let x := j.get s
+      if x.room == some r && x.info.ctype == .client then j.set s { x with inCall := true } else j) j, "ok")
+  | .incallAll r false all =>
+    -- "the call ended for everybody": every session of the room that was in the call has left it
+    (all.foldl (fun j s => if (j.get s).room == some r then j.leaveCall s else j) j, "ok")
+  | .intIncall s f =>
     let x := j.get s
-    (j.set s { x with closed := true, room := none, inCall := false, epoch := x.epoch + 1 }, "ok")
+    -- a message that repeats the flags the client already has announces nothing
+    if x.info.ctype != .internal || x.info.flags == f then (j, "ok") else
+    let was := x.inCall || flagInCall x.info.flags
+    let x := { x with info := { x.info with flags := f } }
+    match x.room with
+    | none => (j.set s x, "ok")
+    | some _ =>
+      if flagInCall f then (j.set s { x with inCall := true }, "ok")
+      else if was then (j.set s { x with inCall := false, epoch := x.epoch + 1 }, "ok")
+      else (j.set s x, "ok")
+  | .delRoom r all =>
+    (all.foldl (fun j s => if (j.get s).room == some r then j.leaveRoom s else j) j, "ok")
+  | .disinvite s r =>
+    -- takes effect when it is delivered to the connection of a session in that room
+    let x := j.get s
+    if x.info.connected && x.room == some r then (j.closeSess s, "ok") else (j, "ok")
+  | .kick s => if (j.get s).room.isSome && !(j.get s).closed then (j.closeSess s, "ok") else (j, "ok")
+  | .asyncBye s => (j.closeSess s, "ok")
+  | .bye s => if (j.get s).info.connected then (j.closeSess s, "ok") else (j, "ok")
+  | .drop s =>
+    let x := j.get s
+    if x.info.connected then (j.set s { x with info := { x.info with connected := false, expiring := true } }, "ok")
+    else (j, "ok")
+  | .expire all => (all.foldl (fun j s => if (j.get s).info.expiring then j.closeSess s else j) j, "ok")
+  | .virtual _ _ => (j, "ok")
   | .offer s t m =>
     let started := match impl with
       | ["pending"] => true
